@@ -133,6 +133,36 @@ func concurrent(ops []probeOp, n, rounds int, seed int64) {
 		Name   string `json:"name"`
 		Serial string `json:"serial"`
 		Err    bool   `json:"err"`
+		// every object reachable from the result (arguments, fields, decorator payloads): "origin#serial"
+		Inner []string `json:"inner,omitempty"`
+	}
+	var collect func(v interface{}, depth int, acc *[]string)
+	collect = func(v interface{}, depth int, acc *[]string) {
+		if depth > 12 {
+			return
+		}
+		var t *T
+		switch x := v.(type) {
+		case *T:
+			t = x
+		case T:
+			t = &x
+		case []interface{}:
+			for _, e := range x {
+				collect(e, depth+1, acc)
+			}
+			return
+		}
+		if t == nil {
+			return
+		}
+		*acc = append(*acc, fmt.Sprintf("%s#%d", t.Origin, t.Serial))
+		for _, a := range t.Args {
+			collect(a, depth+1, acc)
+		}
+		for _, f := range []interface{}{t.Name, t.Port, t.Dep, t.Zeta, t.Injected, t.Np, t.F} {
+			collect(f, depth+1, acc)
+		}
 	}
 	results := make([][]obsv, n)
 	start := make(chan struct{})
@@ -181,7 +211,11 @@ func concurrent(ops []probeOp, n, rounds int, seed int64) {
 					} else if rv := reflect.ValueOf(v); v != nil && rv.Kind() == reflect.Ptr && !rv.IsNil() && rv.Elem().Kind() == reflect.Struct && rv.Elem().FieldByName("Serial").IsValid() {
 						ser = fmt.Sprint(rv.Elem().FieldByName("Serial").Interface())
 					}
-					results[g] = append(results[g], obsv{G: g, Op: o.Op, Name: o.Name, Serial: ser, Err: err != nil})
+					var inner []string
+					if o.Op == "getctx" || o.Op == "taggedctx" {
+						collect(v, 0, &inner)
+					}
+					results[g] = append(results[g], obsv{G: g, Op: o.Op, Name: o.Name, Serial: ser, Err: err != nil, Inner: inner})
 				}
 			}
 		}(g)
